@@ -98,6 +98,8 @@ class CoreDriver:
         self.fault_plan = {}  # s -> [op or None, nth]
         self.world_cfg = world.cfg
         world.ctl.gate_hook = self._fs_gate
+        world.ctl.pregate_hook = self._fs_pregate
+        self.pregate_plan = {}  # (s, op) -> [op, nth]
         world.ctl.fault_hook = self._fs_fault
         self.net.gate_hook = self._l_gate
         self.skipped = 0
@@ -199,6 +201,19 @@ class CoreDriver:
             self.held[key] = fut
             return fut
         return None
+
+    def _fs_pregate(self, s, op, segs, kt):
+        key = (s, op)
+        plan = self.pregate_plan.get(key)
+        if plan is None or (s, op, "pre") in self.held:
+            return None
+        plan[1] -= 1
+        if plan[1] > 0:
+            return None
+        del self.pregate_plan[key]
+        fut = self.loop.create_future()
+        self.held[(s, op, "pre")] = fut
+        return fut
 
     def _fs_fault(self, s, op, segs, kt, ko):
         plan = self.fault_plan.get(s)
@@ -334,6 +349,9 @@ class CoreDriver:
         elif op == "gate":
             self.gate_plan[(st[1], st[2])] = [st[2], st[3]]
             return True
+        elif op == "pregate":   # hold the n-th call of that operation *before* it executes
+            self.pregate_plan[(st[1], st[2])] = [st[2], st[3]]
+            return True
         elif op == "lgate":
             self.lgate_plan[st[1]] = st[2]
             return True
@@ -344,6 +362,8 @@ class CoreDriver:
             # release (or fail: the held backend calls raise OSError at that instant) everything held for the session
             for key in [k for k in self.gate_plan if k[0] == st[1]]:
                 del self.gate_plan[key]
+            for key in [k for k in self.pregate_plan if k[0] == st[1]]:
+                del self.pregate_plan[key]
             keys = [k for k, f in self.held.items() if k[0] == st[1]]
             n = 0
             for k in keys:
